@@ -10,7 +10,7 @@ use std::collections::BTreeSet;
 
 pub static DEF: PropDef = PropDef {
     id: "C10",
-    rule: "random: trees (<=30 nodes: files of several sizes, directories, links to files/directories inside and outside the starting point, dangling links; random modes) plus an 'outside' area that links point into x test expressions before -delete whose truth cannot depend on earlier deletions (-name/-iname/-path/-type/-perm/-size, an inert -prune, !, -o, depth bounds) x follow mode (-P; -L/-H with links only to outside targets, each at most once). The tree is first listed with 'find -depth TESTS -print' (list L) and 'find -depth -print' (all visited), then 'find ( TESTS -delete -printf D ) -o -printf N' runs on the same tree. Oracle: removal model over L in order (non-directory: removed; directory: removed iff empty by then); snapshot(after) == snapshot(before) - removed over the WHOLE case directory (outside area included); D/N lines in visit order (truth of -delete); exit != 0 and a diagnostic iff some removal failed. Non-trivial = a symbolic link is matched, or a directory removal fails, or an unmatched entry sits beside matched ones inside a matched directory. Distinct = distinct case JSON.",
+    rule: "random: trees (<=30 nodes: files of several sizes, directories, links to files/directories inside and outside the starting point, dangling links; random modes) plus an 'outside' area that links point into x test expressions before -delete whose truth must not depend on earlier deletions (-name/-iname/-path/-type/-perm/-size, an inert -prune, !, -o, depth bounds; and tests on what removals change in a directory: -type d -links N, -newer REF with modification times set on both sides of REF) x follow mode (-P; -L/-H with links only to outside targets, each at most once). The tree is first listed with 'find -depth TESTS -print' (list L) and 'find -depth -print' (all visited), then 'find ( TESTS -delete -printf D ) -o -printf N' runs on the same tree. Oracle: removal model over L in order (non-directory: removed; directory: removed iff empty by then); snapshot(after) == snapshot(before) - removed over the WHOLE case directory (outside area included); D/N lines in visit order (truth of -delete); exit != 0 and a diagnostic iff some removal failed. Non-trivial = a symbolic link is matched, or a directory removal fails, or an unmatched entry sits beside matched ones inside a matched directory. Distinct = distinct case JSON.",
     assumptions: &[
         "listing and deleting run on the same tree (the listing run does not modify it), which is the statement's 'identical tree'",
         "-H/-L with a starting point that is itself a link to a directory is not generated here (known walkdir finding, see C02/C03)",
@@ -39,7 +39,7 @@ pub struct Case {
 fn gen_tests(g: &mut Gen, names: &[String]) -> Vec<String> {
     fn atom(g: &mut Gen, names: &[String]) -> Vec<String> {
         let s = |x: &str| x.to_string();
-        match g.weighted(&[5, 3, 3, 2, 2, 1, 2, 1]) {
+        match g.weighted(&[5, 3, 3, 2, 2, 1, 2, 1, 3]) {
             0 => {
                 let n = g.pick(names);
                 let first: String = n.chars().take(1).collect();
@@ -56,6 +56,14 @@ fn gen_tests(g: &mut Gen, names: &[String]) -> Vec<String> {
             4 => vec![s("-perm"), g.pick(&["-100", "/222", "644", "-644", "/111", "755", "-0", "/4000"]).to_string()],
             5 => vec![s("-true")],
             6 => vec![s("-false")],
+            // tests on attributes of a directory that change when entries below it are removed:
+            // what counts is the directory as the walk met it
+            8 => match g.below(3) {
+                // (directories only: the link count of a file with several names changes with every name removed, whatever the implementation does)
+                0 => vec![s("("), s("-type"), s("d"), s("-links"), g.pick(&["2", "+2", "-3", "3", "+1"]).to_string(), s(")")],
+                1 => vec![s("-newer"), s("c/ref-mid")],
+                _ => vec![s("!"), s("-newer"), s("c/ref-mid")],
+            },
             // always true, and without effect under the depth-first order that -delete implies
             // (also when it stands before the -delete that switches that order on)
             _ => vec![s("-prune")],
@@ -160,6 +168,13 @@ fn key_of(ctx: &Ctx, p: &str) -> Option<String> {
 pub fn check(ctx: &mut Ctx, c: &Case) -> Outcome {
     ctx.fresh_case_dir();
     c.tree.build();
+    // modification times on both sides of a reference file, directories included (-newer tests)
+    std::fs::write("c/ref-mid", b"").unwrap();
+    crate::engine::fsx::set_times("c/ref-mid", None, Some((1_420_070_400, 0)));
+    for n in &c.tree.nodes {
+        let older = n.path.bytes().map(|b| b as u32).sum::<u32>() % 2 == 0;
+        crate::engine::fsx::set_times(&n.path, None, Some((if older { 1_262_304_000 } else { 1_577_836_800 }, 0)));
+    }
     let flag = ["-P", "-H", "-L"][c.follow as usize];
     let mut opts: Vec<String> = vec![];
     if let Some(m) = c.mindepth {
